@@ -268,7 +268,7 @@ func aliasScan(p *Prog, f *ssa.Function, isSource func(v ssa.Value) bool) (findi
 func c13(c *ctx) {
 	r := c.r
 	r.Explain = "Three structural clauses: (R1) the validator list borrowed from the per-height shared cache is never mutated by a borrower (no store through a borrowed record, no in-place sort/append of the borrowed slice, no hand-off to a mutating callee); (R2) threshold and total power of a ValidatorSet have a single writer (NewValidatorSet) and are derived there from the members; " +
-		"(R3) past committees are read from a read-only view at the requested height (C10.R3); (R4) the FSM's caches are filled only from the FSM's own store view: each cache field has a fixed set of writers, so a historical view can never inherit parameters or records of the live state."
+		"(R3) past committees are read from a read-only view at the requested height (C10.R3); (R5) no binary search over an unsorted list; (R4) the FSM's caches are filled only from the FSM's own store view: each cache field has a fixed set of writers, so a historical view can never inherit parameters or records of the live state."
 	r.NotCovered = []string{"the sort order, the cap and the tie-break themselves (value-level)", "the value floor(2*total/3)+1 and its overflow (F7)", "staleness of the per-FSM validator list inside one block"}
 	r.Trusted = []string{"slices.Collect returns a fresh slice"}
 
@@ -424,4 +424,52 @@ func c13(c *ctx) {
 			}
 		}
 	}
+
+	// ------------------------------------------------------------------ R5
+	r.Rule("R5", "PAIR", "membership tests see every element: a binary search (slices.BinarySearch*, sort.Search*, sort.Find) in fsm/lib/bft/controller runs only on a slice that the same function sorted before (committee lists, validator lists and signer lists are stored in arrival order, not sorted)", 0)
+	nBS := 0
+	for _, f := range c.p.Funcs {
+		switch pkgShort(f) {
+		case "fsm", "lib", "bft", "controller":
+		default:
+			continue
+		}
+		if isTestFile(c.p, f.Pos()) {
+			continue
+		}
+		var sorts []ssa.CallInstruction
+		instrs(f, func(in ssa.Instruction) {
+			if call, ok := in.(*ssa.Call); ok {
+				if n := calleeName(call.Common()); (strings.HasPrefix(n, "sort.") && !strings.HasPrefix(n, "sort.Search") && !strings.HasPrefix(n, "sort.Find")) || strings.HasPrefix(n, "slices.Sort") {
+					sorts = append(sorts, call)
+				}
+			}
+		})
+		instrs(f, func(in ssa.Instruction) {
+			call, ok := in.(*ssa.Call)
+			if !ok || len(call.Common().Args) == 0 {
+				return
+			}
+			n := calleeName(call.Common())
+			if !(strings.HasPrefix(n, "slices.BinarySearch") || strings.HasPrefix(n, "sort.Search") || strings.HasPrefix(n, "sort.Find")) {
+				return
+			}
+			if !strings.HasPrefix(n, "slices.BinarySearch") {
+				return // sort.Search/Find take a length and a predicate: the searched sequence is not an operand; not decided here
+			}
+			nBS++
+			target := c.p.path(call.Common().Args[0])
+			sorted := false
+			for _, sc := range sorts {
+				if len(sc.Common().Args) > 0 && c.p.path(sc.Common().Args[0]) == target && instrBefore(sc.(ssa.Instruction), call) {
+					sorted = true
+				}
+			}
+			r.Check(sorted, "R5/binary-search/"+fnName(enclosing(f)), c.p.Pos(call.Pos()), "searches "+target+", sorted earlier in the function",
+				fnName(enclosing(f))+" runs "+n+" on "+target+", which this function did not sort: on an unsorted list (committee ids, validators and signers are kept in arrival order) a binary search misses elements that are present, so members are silently dropped from the set")
+		})
+	}
+	r.Analysed["binary_searches"] = nBS
+	r.OK("R5/summary", "?", fmt.Sprintf("%d binary searches over slices examined", nBS))
+
 }
